@@ -39,3 +39,142 @@ void ambientRestore(bool withLocale) {
         if (!l || g_def.locale != l) setlocale(LC_ALL, g_def.locale.c_str());
     }
 }
+
+// ---------------------------------------------------------------- shims ----
+#include <errno.h>
+#include <pthread.h>
+#include <sched.h>
+#include <stdlib.h>
+#include <sys/time.h>
+#include <time.h>
+#include <unistd.h>
+
+void (*ambientYieldHook)(void) = nullptr;
+namespace {
+AmbientReads g_reads;
+long long g_simNs = 0;
+unsigned long long g_simRand = 0x2545F4914F6CDD1DULL;
+const long long SIM_EPOCH = 1790000000LL;  // simulated wall clock start (s)
+long long tick(long long ns) {
+    g_simNs += ns;
+    return g_simNs;
+}
+unsigned long long nextRand() {
+    g_simRand ^= g_simRand << 13;
+    g_simRand ^= g_simRand >> 7;
+    g_simRand ^= g_simRand << 17;
+    return g_simRand;
+}
+}  // namespace
+void ambientResetPerRun() {
+    g_reads = AmbientReads();
+    g_simNs = 0;
+    g_simRand = 0x2545F4914F6CDD1DULL;
+}
+AmbientReads ambientReads() { return g_reads; }
+
+extern "C" {
+time_t h3amb_time(time_t *t) {
+    g_reads.clock++;
+    time_t v = (time_t)(SIM_EPOCH + tick(1000000) / 1000000000LL);
+    if (t) *t = v;
+    return v;
+}
+clock_t h3amb_clock(void) {
+    g_reads.clock++;
+    return (clock_t)(tick(1000000) / 1000);
+}
+int h3amb_clock_gettime(clockid_t, struct timespec *ts) {
+    g_reads.clock++;
+    long long n = tick(1000);
+    if (ts) {
+        ts->tv_sec = (time_t)(SIM_EPOCH + n / 1000000000LL);
+        ts->tv_nsec = (long)(n % 1000000000LL);
+    }
+    return 0;
+}
+int h3amb_gettimeofday(struct timeval *tv, void *) {
+    g_reads.clock++;
+    long long n = tick(1000);
+    if (tv) {
+        tv->tv_sec = (time_t)(SIM_EPOCH + n / 1000000000LL);
+        tv->tv_usec = (suseconds_t)((n % 1000000000LL) / 1000);
+    }
+    return 0;
+}
+int h3amb_rand(void) {
+    g_reads.random++;
+    return (int)(nextRand() & 0x7fffffff);
+}
+long h3amb_random(void) {
+    g_reads.random++;
+    return (long)(nextRand() & 0x7fffffff);
+}
+void h3amb_srand(unsigned s) {
+    g_reads.random++;
+    g_simRand = 0x9E3779B97F4A7C15ULL ^ s;
+}
+void h3amb_srandom(unsigned s) { h3amb_srand(s); }
+int h3amb_rand_r(unsigned *s) {
+    g_reads.random++;
+    *s = *s * 1103515245u + 12345u;
+    return (int)((*s >> 16) & 0x7fff);
+}
+char *h3amb_getenv(const char *n) {
+    g_reads.env++;
+    return getenv(n);
+}
+pid_t h3amb_getpid(void) {
+    g_reads.env++;
+    return 4242;
+}
+unsigned h3amb_sleep(unsigned s) {
+    g_reads.sleep++;
+    tick(1000000000LL * s);
+    if (ambientYieldHook) ambientYieldHook();
+    return 0;
+}
+int h3amb_usleep(unsigned us) {
+    g_reads.sleep++;
+    tick(1000LL * us);
+    if (ambientYieldHook) ambientYieldHook();
+    return 0;
+}
+int h3amb_nanosleep(const struct timespec *req, struct timespec *rem) {
+    g_reads.sleep++;
+    if (req) tick(req->tv_sec * 1000000000LL + req->tv_nsec);
+    if (rem) rem->tv_sec = 0, rem->tv_nsec = 0;
+    if (ambientYieldHook) ambientYieldHook();
+    return 0;
+}
+int h3amb_sched_yield(void) {
+    g_reads.sleep++;
+    if (ambientYieldHook) ambientYieldHook();
+    return 0;
+}
+int h3amb_pthread_mutex_lock(pthread_mutex_t *m) {
+    g_reads.lock++;
+    for (long spins = 0;; spins++) {
+        int rc = pthread_mutex_trylock(m);
+        if (rc != EBUSY) return rc;
+        g_reads.lockContended++;
+        if (ambientYieldHook)
+            ambientYieldHook();  // the holder is a parked task: let it run
+        else
+            sched_yield();
+        if (spins > 100000000L) return EDEADLK;
+    }
+}
+int h3amb_pthread_spin_lock(pthread_spinlock_t *l) {
+    g_reads.lock++;
+    for (;;) {
+        int rc = pthread_spin_trylock(l);
+        if (rc != EBUSY) return rc;
+        g_reads.lockContended++;
+        if (ambientYieldHook)
+            ambientYieldHook();
+        else
+            sched_yield();
+    }
+}
+}
